@@ -116,7 +116,7 @@ def jobs(tier, seed):
         for quiet in (False, True):
             if tier == 'quick' and quiet and not name.startswith(('Li', 'LLs')):
                 continue         # the quiet flag only changes control flow inside EditDistance.tighten_bounds
-            for st in ('auto',) if tier == 'quick' else ('auto', 'none'):
+            for st in ('auto',) if (tier == 'quick' or 'D' not in name) else ('auto', 'none'):
                 for pre in prefixes(tier):
                     if tier == 'quick' and name == 'LLs' and len(pre) > 1:
                         continue
@@ -127,7 +127,7 @@ def jobs(tier, seed):
                 if tier == 'quick' and quiet:
                     continue
                 for nested in (0, 1):
-                    for pre in [p for p in prefixes('quick') if 1 <= len(p) <= (1 if tier == 'quick' else 3)]:
+                    for pre in [p for p in prefixes('quick') if 1 <= len(p) <= (1 if tier == 'quick' else 2)]:
                         out.append(dict(fam=name, A=A, B=B_, dict=st, list='on', quiet=quiet, weight=len(pre) + 4, alpha=3,
                                         extra=dict(prefix=pre, nested=nested)))
                     if tier == 'quick':
